@@ -1,7 +1,7 @@
 (* C13 -- a failing output writer aborts rendering with the writer error.
    Only statements, `exact`, and Print Assumptions live here. *)
 From Verif Require Import Bytes Facts_render RendererM TCalcM TCalc_proofs.
-From Verif Require Import WriteProgM WriteProg_proofs.
+From Verif Require Import WriteProgM WriteProg_proofs Facts_writes WriteFacts_proofs.
 Open Scope N_scope.
 
 (* Full statement over the runtime calculus (every tree of functions with
@@ -113,6 +113,17 @@ Theorem escapeBytes_writes_holds : forall q b w ws,
 Proof. exact escapeBytes_view. Qed.
 Theorem show_js_writes_holds : forall v w ws, show_js v w ws = run_shown (js_chunks v) w ws.
 Proof. exact show_js_view. Qed.
+
+(* T1: escapeBytes as gofacts executes it (the statements of escapers.go run
+   by the partial evaluator with a simulated writer failing at its k-th call,
+   every k of every configuration: quotes or not, the encoder writing at Close
+   or not): no call after the failing one, the error of the failing call is
+   returned; the hand model makes the same calls and returns the same on each
+   of these runs *)
+Theorem escapeBytes_runs_obligation :
+  forallb run_row_ok gen_escapeBytes_runs = true /\
+  forallb model_row_ok gen_escapeBytes_runs = true.
+Proof. split; [exact fact_escapeBytes_runs|exact fact_escapeBytes_model_agrees]. Qed.
 
 (* non vacuity: a byte slice of 1540 bytes in JavaScript is six calls (quote,
    two blocks of 1024, the rest, the last byte, quote); [1,a<] with the writer
